@@ -3,7 +3,7 @@
 macro_rules! width_list {
     () => {
         dispatch_widths!(dispatch, call, Op;
-            0, 1, 2, 3, 4, 5, 6, 7, 8, 9, 10, 11, 12, 13, 16, 59, 60, 61, 63, 64, 65, 66, 72, 120, 126, 127, 128, 129, 189, 192, 193, 200, 255, 256, 257, 320, 512, 1024);
+            0, 1, 2, 3, 4, 5, 6, 7, 8, 9, 10, 11, 12, 13, 16, 59, 60, 61, 63, 64, 65, 66, 72, 120, 126, 127, 128, 129, 189, 192, 193, 200, 255, 256, 257, 320, 512, 1024, 4096);
     };
 }
 const SWEEP: bool = false;
